@@ -353,7 +353,7 @@ def run_creation(case: dict, root: str, *, sim_kwargs: dict | None = None, trace
     saved_stream = ylog.Indicator.__init__.__kwdefaults__["stream"]
     ylog.Indicator.__init__.__kwdefaults__["stream"] = sink
     saved_tc = ycat.treecorr
-    ycat.treecorr = wl.SeededTreecorr(d["data_seed"] % 9973)
+    seeded_tc = ycat.treecorr = wl.SeededTreecorr(d["data_seed"] % 9973)
     try:
         import contextlib
 
@@ -387,6 +387,7 @@ def run_creation(case: dict, root: str, *, sim_kwargs: dict | None = None, trace
         gen_args=gen_args,
         races=sim.file_races(),
         fault_fired=dict(sim.faults.get("_fired", {})),
+        degenerate_centres=seeded_tc.degenerate,
         process_errors=[type(e).__name__ for e in sim.objects.get("process_errors", [])],
         main_done=sim.main.done,
         orphans=[t.name for t in sim.tasks if t is not sim.main and t.state not in ("done", "killed")],
